@@ -151,6 +151,53 @@ class Ctx:
             self._cache[key] = next(iter(vals)) if len(vals) == 1 else None
         return self._cache[key]
 
+    def handlers_for(self, site, cfg):
+        """{'on_next'|'on_error'|'on_completed': ('fn', HandlerSpec) | ('forward', target term, method) | ('absent',)}
+        as wired by the subscribe function *under the configuration cfg* (handlers may be defined or chosen
+        conditionally at subscription time)."""
+        out = {}
+        order = ["on_next", "on_error", "on_completed", "scheduler"]
+        for p in self.fn_paths(site.module, site.subscribe_fn, cfg=cfg, roles=site.roles, inline=False):
+            for e in p.trace:
+                if e.k == "call" and e.d.get("method") in ("subscribe", "subscribe_"):
+                    exprs = {}
+                    pos = 0
+                    for a in e.args:
+                        if a[0] == "kw":
+                            exprs[a[1]] = a[2]
+                        else:
+                            if pos < len(order):
+                                exprs[order[pos]] = a
+                            pos += 1
+                    for which in ("on_next", "on_error", "on_completed"):
+                        t = exprs.get(which)
+                        bound = {}
+                        if t is not None and t[0] == "partial":
+                            fn_t = t[1]
+                            if fn_t[0] == "func":
+                                params = site.module.scopes[fn_t[1]].params
+                                for k, _ in enumerate(t[2]):
+                                    if k < len(params):
+                                        bound[params[k]] = ("bound", params[k])
+                            t = fn_t
+                        if t is None or t == ("const", None):
+                            ref = ("absent",)
+                        elif t[0] in ("func", "lambda"):
+                            fn = t[1]
+                            sc = site.module.scopes[fn]
+                            posargs = [a for a in sc.params if a not in bound]
+                            ev = posargs[0] if (which != "on_completed" and posargs) else None
+                            ref = ("fn", HandlerSpec(site.module, fn, ev, roles=site.roles, bound=bound, label=which))
+                        elif t[0] == "attr" and t[2] in ("on_next", "on_error", "on_completed"):
+                            ref = ("forward", t[1], t[2])
+                        else:
+                            ref = ("unknown", t)
+                        prev = out.get(which)
+                        if prev is not None and prev[0] != ref[0]:
+                            raise AnalysisError("%s: the %s handler is wired differently on different paths of the subscribe function for one configuration" % (site.name, which))
+                        out.setdefault(which, ref)
+        return out
+
     def mux_sites(self) -> List[Site]:
         return [s for s in self.sites if s.ctor in ("mux", "muxconn")]
 
